@@ -94,7 +94,17 @@ pub fn sqrt_verdict(s: Layout, d: Layout, a: u128, out: TOut) -> Verdict {
             if ok {
                 Verdict::Fine { ratio: (err_ulps / 4.0).min(1.0) }
             } else {
-                bad("accuracy", "within 4 ulp of the true square root".into(), format!("operand = {} * 2^-{}; result is about {:.3e} ulp off", x, d.frac, err_ulps), err_ulps / 4.0)
+                // exact distance to floor(sqrt(t)) for the report (bit-by-bit integer square root)
+                let mut root = Z::ZERO;
+                for b in (0..=(t.bits() / 2 + 1)).rev() {
+                    let c = root.add(Z::pow2(b));
+                    if c.mul(c).le(&t) {
+                        root = c;
+                    }
+                }
+                let off = rz.sub(root).abs();
+                let off_f = off.to_f64_approx();
+                bad("accuracy", "within 4 ulp of the true square root".into(), format!("operand = {} * 2^-{}; result is {} ulp from floor(sqrt)", x, d.frac, off.to_decimal()), (off_f / 4.0).max(err_ulps / 4.0))
             }
         }
         TOut::Err => {
